@@ -39,7 +39,11 @@ ObsOk(e, nxt) == \A c \in All : /\ e.infl[c] = Infl(nxt[c])
                                 /\ e.closed[c] = nxt[c].closed
 AllFraming(nxt) == \A c \in All : FramingOk(nxt[c], pf.ws)
 \* why a predicted step is not what was observed (first reason that applies)
-Judge(e, nxt) == IF ~ObsOk(e, nxt) THEN "Mismatch" ELSE IF ~AllFraming(nxt) THEN "WholeUnits" ELSE "ok"
+\* answers of a session to its consumer (ids from ReplyBase on) that are not what was enqueued
+Rep(s) == SelectSeq(s, LAMBDA p : p.id >= ReplyBase)
+ReplyDiff(e, nxt) == \E c \in All : Rep(Infl(nxt[c]) \o Delta(con[c], nxt[c])) # Rep(e.infl[c] \o e.wire[c])
+Judge(e, nxt) == IF ~ObsOk(e, nxt) THEN (IF ReplyDiff(e, nxt) THEN "ReplyAltered" ELSE "Mismatch")
+                 ELSE IF ~AllFraming(nxt) THEN "WholeUnits" ELSE "ok"
 Do(e, nxt) == LET j == Judge(e, nxt) IN IF j = "ok" THEN Step(nxt) ELSE Reject(j)
 
 TraceReset ==
@@ -70,7 +74,24 @@ HB == CHOOSE o \in Other : TRUE
 
 \* attaching the sessions writes the protocol preamble
 TraceJoin == /\ IsEvent("Join")
-             /\ IF skip \/ failed THEN Pass ELSE Burst2(Trace[l], Units(Trace[l], H), Units(Trace[l], HB))
+             /\ IF skip \/ failed THEN Pass
+                ELSE IF Trace[l].lost # "" THEN Reject("ReplyLost")   \* an answer during setup was dropped, the session hung up
+                ELSE Burst2(Trace[l], Units(Trace[l], H), Units(Trace[l], HB))
+
+\* consumer c sends a request (the healthy consumer sends the same one and shows the answer R): the answer is ONE
+\* element, it is the answer to this request, and it meets c's queue like any other unit; if it cannot be queued
+\* the session hangs up
+ReplyId(r) == (IF r.k = "ping" THEN 1 ELSE IF r.k = "cs" THEN 2 ELSE 3) * ReplyBase + r.v
+TraceCmd ==
+  /\ IsEvent("Cmd")
+  /\ LET e == Trace[l] c == e.c
+         R == Units(e, H)
+         nxt == [con EXCEPT ![c] = ReplyC(@, cap[c], R, e.wire[c]), ![H] = ReplyC(@, cap[H], R, e.wire[H])]
+     IN IF skip \/ failed THEN Pass
+        ELSE IF e.blocked THEN Reject("NoBlocking")
+        ELSE IF IdsOf(Flat(R)) # <<ReplyId(e.req)>> THEN Reject("ReplyAltered")
+        ELSE IF Len(R) # 1 THEN Reject("ReplySplit")
+        ELSE Do(e, nxt)
 
 TracePublish ==
   /\ IsEvent("Publish")
@@ -147,6 +168,19 @@ TraceStat == /\ IsEvent("Stat")
                 ELSE IF Trace[l].blocked THEN Reject("NoBlocking")
                 ELSE Burst2(Trace[l], <<>>, <<>>)
 
+\* consumers on real TCP connections (driver file stall_tcp.go): what the kernel buffers is not modelled; judged are
+\* the duration of every call into lal and of the delivery to the healthy consumer (NoBlocking, "small bound": closing
+\* or otherwise touching the socket of a stalled consumer happens under Group.mutex), and that the stalled consumers,
+\* once nothing more is taken for them (saturated), are disconnected by the second sweep
+TraceTcp ==
+  /\ IsEvent("Tcp")
+  /\ LET e == Trace[l] IN
+     IF skip \/ failed THEN Pass
+     ELSE IF e.callUs > bound \/ e.latUs > bound THEN Reject("Latency")
+     ELSE IF ~e.gotData THEN Reject("HealthyStarved")
+     ELSE IF e.step = "publish2" /\ e.saturated /\ e.departed < e.stalled THEN Reject("NotDisconnected")
+     ELSE Pass
+
 TraceDrain ==
   /\ IsEvent("Drain")
   /\ LET e == Trace[l]
@@ -163,7 +197,7 @@ TraceDrain ==
         ELSE Step(nxt)
 
 TraceNext == \/ TraceReset \/ TracePubArrive \/ TracePubLeave \/ TraceJoin \/ TracePublish \/ TraceStall \/ TraceResume
-             \/ TraceRead \/ TraceFire \/ TraceSweep \/ TraceDrain \/ TracePublishB \/ TraceStat
+             \/ TraceRead \/ TraceFire \/ TraceSweep \/ TraceDrain \/ TracePublishB \/ TraceStat \/ TraceCmd \/ TraceTcp
 TraceSpec == TraceInit /\ [][TraceNext]_tvars
 HighWater == TLCSet(1, IF l > TLCGet(1) THEN l ELSE TLCGet(1))
 Accept == PrintT("@HW@" \o ToString(TLCGet(1)))
